@@ -712,7 +712,7 @@ class ObjectMethod(DeserializationMethod):
                             )
                 elif self.typed_dict:
                     for key in remain:
-                        values[key] = data[key]
+                        values[key] = copy_containers(data[key])
         elif len(data) != fields_count:
             if not self.additional_properties:
                 for key in data.keys() - self.all_aliases:
@@ -722,7 +722,7 @@ class ObjectMethod(DeserializationMethod):
                         )
             elif self.typed_dict:
                 for key in data.keys() - self.all_aliases:
-                    values[key] = data[key]
+                    values[key] = copy_containers(data[key])
         if self.validators:
             # names of the fields which could not be deserialized (field_errors is
             # keyed by aliases, while init parameters and dependencies are names)
